@@ -87,6 +87,10 @@ func (c *Ctx) mapRanges() []*mapRange {
 	return out
 }
 
+// curCtx is the context of the running analysis (set by load); used by helpers that need
+// to look at the declaration of a callee.
+var curCtx *Ctx
+
 var sortFuncs = map[string]string{
 	pkgNAT + ".Strings": "natural order",
 	"sort.Strings":      "lexicographic order",
@@ -99,9 +103,53 @@ var sortFuncs = map[string]string{
 // sortedAfter checks that the first use of slice variable xs after position i
 // in list is a sort call on xs; returns the comparator description.
 func sortedAfter(info *types.Info, list []ast.Stmt, i int, xs types.Object) (string, token.Pos, bool) {
+	return sortedAfterDepth(info, list, i, xs, 0)
+}
+
+// lessIsAscending: fl is `func(i, j int) bool { return xs[i] < xs[j] }` over the slice object xs.
+func lessIsAscending(info *types.Info, ft *ast.FuncType, body *ast.BlockStmt, xs types.Object) bool {
+	if body == nil || len(body.List) != 1 {
+		return false
+	}
+	r, ok := body.List[0].(*ast.ReturnStmt)
+	if !ok || len(r.Results) != 1 {
+		return false
+	}
+	be, ok := r.Results[0].(*ast.BinaryExpr)
+	if !ok || be.Op != token.LSS {
+		return false
+	}
+	lx, ok1 := be.X.(*ast.IndexExpr)
+	ly, ok2 := be.Y.(*ast.IndexExpr)
+	if !ok1 || !ok2 {
+		return false
+	}
+	xi, ok1 := lx.X.(*ast.Ident)
+	yi, ok2 := ly.X.(*ast.Ident)
+	if !ok1 || !ok2 || info.ObjectOf(xi) != xs || info.ObjectOf(yi) != xs {
+		return false
+	}
+	var pn []string
+	for _, f := range ft.Params.List {
+		for _, n := range f.Names {
+			pn = append(pn, n.Name)
+		}
+	}
+	return len(pn) == 2 && exprString(lx.Index) == pn[0] && exprString(ly.Index) == pn[1]
+}
+
+func sortedAfterDepth(info *types.Info, list []ast.Stmt, i int, xs types.Object, depth int) (string, token.Pos, bool) {
 	uses := func(n ast.Node) bool {
 		found := false
 		ast.Inspect(n, func(m ast.Node) bool {
+			// len(xs) / cap(xs) / xs == nil do not depend on the order of the elements
+			if call, ok := m.(*ast.CallExpr); ok {
+				if id, ok := call.Fun.(*ast.Ident); ok && (id.Name == "len" || id.Name == "cap") && len(call.Args) == 1 {
+					if a, ok := unparen(call.Args[0]).(*ast.Ident); ok && info.ObjectOf(a) == xs {
+						return false
+					}
+				}
+			}
 			if id, ok := m.(*ast.Ident); ok && info.ObjectOf(id) == xs {
 				found = true
 			}
@@ -135,8 +183,47 @@ func sortedAfter(info *types.Info, list []ast.Stmt, i int, xs types.Object) (str
 		if fn == nil || fn.Pkg() == nil {
 			return "", st.Pos(), false
 		}
+		// sort.Sort(T(xs)) / sort.Stable(T(xs)) with a named slice type whose Less is ascending
+		if fn.Pkg().Path() == "sort" && (fn.Name() == "Sort" || fn.Name() == "Stable") && len(call.Args) == 1 && curCtx != nil {
+			if conv, ok := unparen(call.Args[0]).(*ast.CallExpr); ok && len(conv.Args) == 1 {
+				if id, ok := unparen(conv.Args[0]).(*ast.Ident); ok && info.ObjectOf(id) == xs {
+					if tn := namedOf(info.TypeOf(conv)); tn != nil {
+						if less := methodOf(tn, "Less"); less != nil {
+							if lfd := curCtx.funcDecl(less); lfd != nil && lfd.Recv != nil && len(lfd.Recv.List) == 1 && len(lfd.Recv.List[0].Names) == 1 {
+								li := curCtx.declPkg[lfd].TypesInfo
+								if lessIsAscending(li, lfd.Type, lfd.Body, li.Defs[lfd.Recv.List[0].Names[0]]) {
+									return "ascending order of the keys (sort.Sort with an ascending Less)", st.Pos(), true
+								}
+							}
+						}
+					}
+				}
+			}
+			return "", st.Pos(), false
+		}
 		desc, known := sortFuncs[fn.Pkg().Path()+"."+fn.Name()]
 		if !known {
+			// a helper of the module that sorts its parameter: f(xs)
+			if curCtx != nil && depth < 2 && curCtx.isLLVM(fn.Pkg().Path()) {
+				if hfd := curCtx.funcDecl(fn); hfd != nil && hfd.Body != nil {
+					for ai, a := range call.Args {
+						if id, ok := unparen(a).(*ast.Ident); ok && info.ObjectOf(id) == xs {
+							hi := curCtx.declPkg[hfd].TypesInfo
+							k := 0
+							for _, f := range hfd.Type.Params.List {
+								for _, nm := range f.Names {
+									if k == ai {
+										if d, _, ok := sortedAfterDepth(hi, hfd.Body.List, -1, hi.Defs[nm], depth+1); ok {
+											return d, st.Pos(), true
+										}
+									}
+									k++
+								}
+							}
+						}
+					}
+				}
+			}
 			return "", st.Pos(), false
 		}
 		if id, ok := unparen(call.Args[0]).(*ast.Ident); !ok || info.ObjectOf(id) != xs {
@@ -570,46 +657,92 @@ func ruleORDSORT(c *Ctx) []Obligation {
 		}
 		xs := info.ObjectOf(id)
 		desc, _, sorted := sortedAfter(info, mr.encl, mr.idx, xs)
-		// which Module field is filled by ranging over xs afterwards
+		// which Module field is filled by ranging over xs afterwards — in this function, or, when
+		// this function returns the sorted slice, in the functions that call it
+		type fillScope struct {
+			stmts []ast.Stmt
+			xs    types.Object
+		}
+		scopes := []fillScope{{mr.encl[mr.idx+1:], xs}}
+		returnsXs := false
 		for _, st := range mr.encl[mr.idx+1:] {
-			ast.Inspect(st, func(n ast.Node) bool {
-				rs, ok := n.(*ast.RangeStmt)
-				if !ok {
-					return true
+			if r, ok := st.(*ast.ReturnStmt); ok && len(r.Results) == 1 {
+				if rid, ok := unparen(r.Results[0]).(*ast.Ident); ok && info.ObjectOf(rid) == xs {
+					returnsXs = true
 				}
-				if rid, ok := unparen(rs.X).(*ast.Ident); !ok || info.ObjectOf(rid) != xs {
-					return true
-				}
-				ast.Inspect(rs.Body, func(m ast.Node) bool {
-					as2, ok := m.(*ast.AssignStmt)
-					if !ok {
-						return true
-					}
-					for _, l := range as2.Lhs {
-						if n2, f := c.irFieldOf(info, l); n2 != nil && typeKey(n2) == "ir.Module" {
-							// index must be the range key (in-order fill) or an append
-							field := f.Name()
-							o := Obligation{Key: "ir.Module." + field + " filled in sorted key order", Pos: c.pos(as2.Pos()), Verdict: OK}
-							req := want[field]
-							switch {
-							case !sorted:
-								o.Verdict, o.Detail = VIOL, "the key slice is not sorted before the list is filled"
-							case req != "" && !strings.HasPrefix(desc, req):
-								o.Verdict, o.Detail = VIOL, fmt.Sprintf("keys are sorted in %s, the canonical order of this list is %s", desc, req)
-							default:
-								o.Detail = desc
-							}
-							if ix, ok := unparen(l).(*ast.IndexExpr); ok && rs.Key != nil && exprString(ix.Index) != exprString(rs.Key) {
-								o.Verdict, o.Detail = VIOL, "list slot is not indexed by the position in the sorted key slice"
-							}
-							filled[field] = true
-							obs = append(obs, o)
-						}
+			}
+		}
+		if returnsXs {
+			c.eachFunc(pkgASM, func(p2 *packages.Package, fd2 *ast.FuncDecl, _ *types.Func) {
+				var lists [][]ast.Stmt
+				ast.Inspect(fd2.Body, func(n ast.Node) bool {
+					switch n := n.(type) {
+					case *ast.BlockStmt:
+						lists = append(lists, n.List)
+					case *ast.CaseClause:
+						lists = append(lists, n.Body)
 					}
 					return true
 				})
-				return true
+				for _, l := range lists {
+					for k, st := range l {
+						as2, ok := st.(*ast.AssignStmt)
+						if !ok || len(as2.Lhs) != 1 || len(as2.Rhs) != 1 {
+							continue
+						}
+						call, ok := unparen(as2.Rhs[0]).(*ast.CallExpr)
+						if !ok || calleeOf(p2.TypesInfo, call) != mr.fn {
+							continue
+						}
+						if lid, ok := as2.Lhs[0].(*ast.Ident); ok {
+							scopes = append(scopes, fillScope{l[k+1:], p2.TypesInfo.ObjectOf(lid)})
+						}
+					}
+				}
 			})
+		}
+		for _, sc := range scopes {
+			xs := sc.xs
+			for _, st := range sc.stmts {
+				ast.Inspect(st, func(n ast.Node) bool {
+					rs, ok := n.(*ast.RangeStmt)
+					if !ok {
+						return true
+					}
+					if rid, ok := unparen(rs.X).(*ast.Ident); !ok || info.ObjectOf(rid) != xs {
+						return true
+					}
+					ast.Inspect(rs.Body, func(m ast.Node) bool {
+						as2, ok := m.(*ast.AssignStmt)
+						if !ok {
+							return true
+						}
+						for _, l := range as2.Lhs {
+							if n2, f := c.irFieldOf(info, l); n2 != nil && typeKey(n2) == "ir.Module" {
+								// index must be the range key (in-order fill) or an append
+								field := f.Name()
+								o := Obligation{Key: "ir.Module." + field + " filled in sorted key order", Pos: c.pos(as2.Pos()), Verdict: OK}
+								req := want[field]
+								switch {
+								case !sorted:
+									o.Verdict, o.Detail = VIOL, "the key slice is not sorted before the list is filled"
+								case req != "" && !strings.HasPrefix(desc, req):
+									o.Verdict, o.Detail = VIOL, fmt.Sprintf("keys are sorted in %s, the canonical order of this list is %s", desc, req)
+								default:
+									o.Detail = desc
+								}
+								if ix, ok := unparen(l).(*ast.IndexExpr); ok && rs.Key != nil && exprString(ix.Index) != exprString(rs.Key) {
+									o.Verdict, o.Detail = VIOL, "list slot is not indexed by the position in the sorted key slice"
+								}
+								filled[field] = true
+								obs = append(obs, o)
+							}
+						}
+						return true
+					})
+					return true
+				})
+			}
 		}
 	}
 	for _, f := range sortedKeys(want) {
@@ -633,6 +766,8 @@ func ruleORDSORT(c *Ctx) []Obligation {
 				if call, ok := as.Rhs[i].(*ast.CallExpr); ok && exprString(call.Fun) == "append" && exprString(call.Args[0]) == exprString(l) && len(call.Args) == 2 {
 					appendSites++
 					loopPos = as.Pos()
+				} else if isEmptySliceInit(info, as.Rhs[i]) {
+					// globalOrder = make([]T, 0, n) / nil: an empty start, no order recorded
 				} else {
 					otherWrites++
 				}
@@ -650,7 +785,7 @@ func ruleORDSORT(c *Ctx) []Obligation {
 	c.eachFunc(pkgASM, func(p *packages.Package, fd *ast.FuncDecl, fn *types.Func) {
 		ast.Inspect(fd.Body, func(n ast.Node) bool {
 			rs, ok := n.(*ast.RangeStmt)
-			if !ok || !strings.Contains(exprString(rs.X), "TopLevelEntities()") {
+			if !ok || !rangesTopLevelEntities(p.TypesInfo, fd, rs) {
 				return true
 			}
 			ast.Inspect(rs.Body, func(m ast.Node) bool {
@@ -672,7 +807,7 @@ func ruleORDSORT(c *Ctx) []Obligation {
 			found := false
 			c.eachFunc(pkgASM, func(p *packages.Package, fd *ast.FuncDecl, fn *types.Func) {
 				ast.Inspect(fd.Body, func(n ast.Node) bool {
-					if rs, ok := n.(*ast.RangeStmt); ok && strings.Contains(exprString(rs.X), "TopLevelEntities()") && rs.Body.Pos() <= pos && pos < rs.Body.End() {
+					if rs, ok := n.(*ast.RangeStmt); ok && rangesTopLevelEntities(p.TypesInfo, fd, rs) && rs.Body.Pos() <= pos && pos < rs.Body.End() {
 						found = true
 					}
 					return true
@@ -750,31 +885,32 @@ func ruleORDSORT(c *Ctx) []Obligation {
 	if len(wi.problems) == 0 {
 		pi := wi.p.TypesInfo
 		emitted := map[string]string{}
-		var list []ast.Stmt = wi.writeTo.Body.List
-		for i, st := range list {
-			rs, ok := st.(*ast.RangeStmt)
-			if !ok {
-				continue
-			}
-			if n2, f := c.irFieldOf(pi, rs.X); n2 != nil && typeKey(n2) == "ir.Module" {
-				if _, isMap := pi.TypeOf(rs.X).Underlying().(*types.Map); isMap {
-					// must be collect-then-sort
-					if len(rs.Body.List) == 1 {
-						if as, ok := rs.Body.List[0].(*ast.AssignStmt); ok && len(as.Lhs) == 1 {
-							if id, ok := as.Lhs[0].(*ast.Ident); ok {
-								desc, _, sorted := sortedAfter(pi, list, i, pi.ObjectOf(id))
-								if sorted {
-									emitted[f.Name()] = "keys sorted in " + desc
-								} else {
-									emitted[f.Name()] = "UNSORTED"
+		for _, list := range c.expandedStmtLists(wi.writeTo, 0) {
+			for i, st := range list {
+				rs, ok := st.(*ast.RangeStmt)
+				if !ok {
+					continue
+				}
+				if n2, f := c.irFieldOf(pi, rs.X); n2 != nil && typeKey(n2) == "ir.Module" {
+					if _, isMap := pi.TypeOf(rs.X).Underlying().(*types.Map); isMap {
+						// must be collect-then-sort
+						if len(rs.Body.List) == 1 {
+							if as, ok := rs.Body.List[0].(*ast.AssignStmt); ok && len(as.Lhs) == 1 {
+								if id, ok := as.Lhs[0].(*ast.Ident); ok {
+									desc, _, sorted := sortedAfter(pi, list, i, pi.ObjectOf(id))
+									if sorted {
+										emitted[f.Name()] = "keys sorted in " + desc
+									} else {
+										emitted[f.Name()] = "UNSORTED"
+									}
 								}
 							}
+						} else {
+							emitted[f.Name()] = "UNSORTED"
 						}
 					} else {
-						emitted[f.Name()] = "UNSORTED"
+						emitted[f.Name()] = "in-order range"
 					}
-				} else {
-					emitted[f.Name()] = "in-order range"
 				}
 			}
 		}
@@ -782,7 +918,7 @@ func ruleORDSORT(c *Ctx) []Obligation {
 			o := Obligation{Key: "WriteTo emits ir.Module." + f, Pos: c.pos(wi.writeTo.Pos()), Verdict: OK, Detail: emitted[f]}
 			switch {
 			case emitted[f] == "":
-				o.Verdict, o.Detail = VIOL, "no range over this list found at the top level of WriteTo"
+				o.Verdict, o.Detail = VIOL, "no range over this list found at the top level of WriteTo (or of a section method it calls)"
 			case emitted[f] == "UNSORTED":
 				o.Verdict, o.Detail = VIOL, "a map is emitted in iteration order"
 			case f == "NamedMetadataDefs" && !strings.Contains(emitted[f], "natural order"):
@@ -792,4 +928,77 @@ func ruleORDSORT(c *Ctx) []Obligation {
 		}
 	}
 	return obs
+}
+
+// expandedStmtLists returns the top-level statement list of fd and, for every
+// top-level call of a method on the same receiver (m.writeGlobals(fw)), the
+// statement lists of that method, recursively: a function split into phases is
+// read like the unsplit one.
+func (c *Ctx) expandedStmtLists(fd *ast.FuncDecl, depth int) [][]ast.Stmt {
+	if fd == nil || fd.Body == nil {
+		return nil
+	}
+	out := [][]ast.Stmt{fd.Body.List}
+	if depth >= 2 || fd.Recv == nil || len(fd.Recv.List) != 1 || len(fd.Recv.List[0].Names) != 1 {
+		return out
+	}
+	p := c.declPkg[fd]
+	if p == nil {
+		return out
+	}
+	info := p.TypesInfo
+	recv := info.Defs[fd.Recv.List[0].Names[0]]
+	for _, st := range fd.Body.List {
+		es, ok := st.(*ast.ExprStmt)
+		if !ok {
+			continue
+		}
+		call, ok := es.X.(*ast.CallExpr)
+		if !ok {
+			continue
+		}
+		se, ok := unparen(call.Fun).(*ast.SelectorExpr)
+		if !ok {
+			continue
+		}
+		if id, ok := unparen(se.X).(*ast.Ident); !ok || info.ObjectOf(id) != recv {
+			continue
+		}
+		if hfd := c.funcDecl(calleeOf(info, call)); hfd != nil && hfd != fd {
+			out = append(out, c.expandedStmtLists(hfd, depth+1)...)
+		}
+	}
+	return out
+}
+
+// rangesTopLevelEntities: the loop ranges over the module's top-level entities —
+// `range old.TopLevelEntities()` or a local holding that call's result.
+func rangesTopLevelEntities(info *types.Info, fd *ast.FuncDecl, rs *ast.RangeStmt) bool {
+	if strings.Contains(exprString(rs.X), "TopLevelEntities()") {
+		return true
+	}
+	id, ok := unparen(rs.X).(*ast.Ident)
+	if !ok {
+		return false
+	}
+	for _, d := range collectDefs(info, fd.Body)[info.ObjectOf(id)] {
+		if strings.Contains(exprString(d), "TopLevelEntities()") {
+			return true
+		}
+	}
+	return false
+}
+
+// isEmptySliceInit: nil, or make(T, 0[, cap]).
+func isEmptySliceInit(info *types.Info, e ast.Expr) bool {
+	e = unparen(e)
+	if id, ok := e.(*ast.Ident); ok && id.Name == "nil" {
+		return true
+	}
+	call, ok := e.(*ast.CallExpr)
+	if !ok || exprString(call.Fun) != "make" || len(call.Args) < 2 {
+		return false
+	}
+	tv := info.Types[call.Args[1]]
+	return tv.Value != nil && tv.Value.String() == "0"
 }
